@@ -175,6 +175,15 @@ def plattBatch {R α β : Type} [Add α] [Mul α]
     (cast : α → β) (inner : List R → List α) (a b : α) (rows : List R) : Option (List β) :=
   (inner rows).mapM fun x => plattPredict cast x a b
 
+/-- `Platt::predict_inplace(data, &mut targets)` for a buffer supplied by the caller: the length
+assert, the inner model's `predict` on the whole batch (its own fresh buffer), then
+`for (x, t) in inner.iter().zip(targets.iter_mut()) { *t = platt_predict(x, a, b) }` -/
+def plattInplace {R α β : Type} [Add α] [Mul α]
+    [Add β] [Div β] [Neg β] [LE β] [DecidableLE β] [OfNat β 0] [OfNat β 1] [Transc β]
+    (cast : α → β) (inner : List R → List α) (a b : α) (rows : List R) (y : List β) : Option (List β) :=
+  if y.length ≠ rows.length then none
+  else zipWrite (fun x => plattPredict cast x a b) (inner rows) y
+
 /-! ## k-means: nearest centroid (first minimum; centroid 0 is visited twice, as in the code) -/
 
 section scalar
@@ -315,16 +324,17 @@ variable {α : Type} [Add α] [Sub α] [Mul α] [Div α] [LT α] [DecidableLT α
 def positionGe (xs : List α) (v : α) : Option Nat := xs.findIdx? fun x => decide (v ≤ x)
 
 /-- body of the `for (i, row)` loop for `val = row[0]`.  Outer `none` = panic (empty model:
-`regressor[0]`; an index out of bounds); `some none` = the cell is **not written** (`position` found
-nothing: cannot happen for an ordered `val` between `x_min` and `x_max`, does happen for NaN) and
-keeps whatever the buffer held; `some (some v)` = `y[i] = v`. -/
+`regressor[0]`; an index out of bounds); `some (some v)` = `y[i] = v`; `some none` (the cell is not
+written and keeps whatever the buffer held) no longer occurs: when `position` finds no knot — which
+cannot happen for an ordered `val` between `x_min` and `x_max`, only for NaN — the value itself is
+written (`y[i] = val`, repo fix `C03-isotonic-nan-stale-cell`; before it the cell was skipped). -/
 def isoCell (reg resp : List α) (v : α) : Option (Option α) :=
   match reg.head?, reg.getLast?, resp.head?, resp.getLast? with
   | some xmin, some xmax, some ymin, some ymax =>
     if xmax ≤ v then some (some ymax)
     else if v ≤ xmin then some (some ymin)
     else match positionGe reg v with
-      | none => some none
+      | none => some (some v)
       | some j =>
         match reg[j]?, reg[j - 1]?, resp[j]?, resp[j - 1]? with
         | some xj, some xp, some yj, some yp =>
